@@ -8,6 +8,7 @@ compared.  No distance is computed on this side.
 """
 from __future__ import annotations
 
+import json
 import multiprocessing as mp
 import os
 from collections import defaultdict
@@ -39,44 +40,54 @@ def newick_of(clusters, tips, reverse=False):
     return render(frozenset(tips), fam) + ";"
 
 
+def _measure(ta, tb, exp, prefix):
+    """Call every real distance function on (ta, tb) both ways round and compare with the spec's
+    values `exp`; -> (issues, ncalls, unsupported)."""
+    kind = exp["kind"]
+    issues, ncalls, unsupported = [], 0, 0
+    if kind == "mixed":
+        return issues, ncalls, 1  # tree_distance documents a ValueError here; no distance is defined
+    for measure, names in METHODS[kind].items():
+        if measure == "matching" and not exp["defined"]:
+            unsupported += 1  # Lin-Rajan-Moret needs equally resolved trees (code raises ValueError)
+            continue
+        want = exp[measure]
+        cls = "zero" if want == 0 else "positive"
+        for m in names:
+            for x, y, way in ((ta, tb, "ab"), (tb, ta, "ba")):
+                ncalls += 1
+                try:
+                    got = x.tree_distance(y, method=m)
+                except Exception as ex:
+                    issues.append((f"{prefix}:{kind}:{measure}:raises:{type(ex).__name__}", {"method": m, "order": way, "exception": repr(ex)}))
+                    continue
+                if got != want or isinstance(got, bool):
+                    sym = "" if way == "ab" else ":swapped"
+                    issues.append((f"{prefix}:{kind}:{measure}:{cls}-expected{sym}", {"method": m, "order": way, "got": repr(got), "expected": want}))
+        if kind == "unrooted" and measure == "matching":
+            ncalls += 1
+            got = ta.lin_rajan_moret(tb)
+            if got != want:
+                issues.append((f"{prefix}:unrooted:matching:{cls}-expected", {"method": "TreeNode.lin_rajan_moret", "got": repr(got), "expected": want}))
+    return issues, ncalls, unsupported
+
+
 def _case(rec):
     from cogent3 import make_tree
 
     F, G = rec["args"]
     exp = rec["obs"]
     tips = rec["tips"]
-    kind = exp["kind"]
     issues = []
     ncalls = 0
     unsupported = 0
     for rev in (False, True):
         ta = make_tree(newick_of(F, tips, reverse=rev))
         tb = make_tree(newick_of(G, tips))
-        if kind == "mixed":
-            unsupported += 1  # tree_distance documents a ValueError here; no distance is defined
-            continue
-        for measure, names in METHODS[kind].items():
-            if measure == "matching" and not exp["defined"]:
-                unsupported += 1  # Lin-Rajan-Moret needs equally resolved trees (code raises ValueError)
-                continue
-            want = exp[measure]
-            cls = "zero" if want == 0 else "positive"
-            for m in names:
-                for x, y, way in ((ta, tb, "ab"), (tb, ta, "ba")):
-                    ncalls += 1
-                    try:
-                        got = x.tree_distance(y, method=m)
-                    except Exception as ex:
-                        issues.append((f"TreeDistance:{kind}:{measure}:raises:{type(ex).__name__}", {"method": m, "order": way, "exception": repr(ex)}))
-                        continue
-                    if got != want or isinstance(got, bool):
-                        sym = "" if way == "ab" else ":swapped"
-                        issues.append((f"TreeDistance:{kind}:{measure}:{cls}-expected{sym}", {"method": m, "order": way, "got": repr(got), "expected": want}))
-            if kind == "unrooted" and measure == "matching":
-                ncalls += 1
-                got = ta.lin_rajan_moret(tb)
-                if got != want:
-                    issues.append((f"TreeDistance:unrooted:matching:{cls}-expected", {"method": "TreeNode.lin_rajan_moret", "got": repr(got), "expected": want}))
+        i, n, u = _measure(ta, tb, exp, "TreeDistance")
+        issues += i
+        ncalls += n
+        unsupported += u
     return rec, issues, ncalls, unsupported
 
 
@@ -105,4 +116,185 @@ def replay(records, run, nproc=None):
                 )
             if stats["pairs"] % 9973 == 1 and not issues and rec["obs"]["kind"] != "mixed":
                 run.sample({"tree1": newick_of(rec["args"][0], rec["tips"]), "tree2": newick_of(rec["args"][1], rec["tips"]), "expected": rec["obs"]})
+    return dict(stats)
+
+
+# ---------------------------------------------------------------- histories (TreeDistHist.tla)
+def _canon(F):
+    return sorted(sorted(c) for c in F)
+
+
+def hkey(st):
+    return json.dumps([st["live"], _canon(st["A"]), _canon(st["B"]), st["meas"]], separators=(",", ":"))
+
+
+def _clusters(tree):
+    """Topology of a real tree read off its tips (NOT through subsets(), which is under test)."""
+    out = []
+    for node in tree.traverse(include_self=False):
+        tips = sorted(t.name for t in node.tips())
+        if len(tips) >= 2:
+            out.append(tips)
+    return sorted(out)
+
+
+class HCtx:
+    def __init__(self, reverse):
+        self.reverse = reverse
+        self.ta = self.tb = None
+        self.meas = False
+        self.live = False
+
+    def state(self):
+        if not self.live:
+            return {"live": False, "A": [], "B": [], "meas": False}
+        return {"live": True, "A": _clusters(self.ta), "B": _clusters(self.tb), "meas": self.meas}
+
+
+def _happly(ctx, act, args, tips, exp=None, prefix="TreeDistance"):
+    """Make the real call(s) for one TreeDistHist label on the objects in ctx."""
+    import copy
+
+    from cogent3 import make_tree
+
+    if act == "Start":
+        ctx.ta = make_tree(newick_of(args[0], tips, reverse=ctx.reverse))
+        ctx.tb = make_tree(newick_of(args[1], tips))
+        ctx.live = True
+        return [], 0, 0
+    if act == "Measure":
+        ctx.meas = True
+        issues, n, u = [], 0, 0
+        if exp is None:  # inside a history: measure exactly as a Measure label does, ignore the values
+            try:
+                ctx.ta.subsets()
+                ctx.ta.compare_by_subsets(ctx.tb)
+                ctx.ta.tree_distance(ctx.tb, method="rf")
+                ctx.tb.tree_distance(ctx.ta, method="rf")
+                ctx.ta.tree_distance(ctx.tb)
+            except ValueError:
+                pass
+            return issues, n, u
+        issues, n, u = _measure(ctx.ta, ctx.tb, exp["dist"], prefix)
+        got = sorted(sorted(c) for c in ctx.ta.subsets())
+        if got != _canon(exp["subsets"]):
+            issues.append((f"{prefix}:subsets", {"method": "subsets", "got": got, "expected": _canon(exp["subsets"])}))
+        if exp["total"]:
+            got = ctx.ta.compare_by_subsets(ctx.tb)
+            # 1 - 2 * common / total, from the spec's two counts
+            if abs(got * exp["total"] - (exp["total"] - 2 * exp["common"])) > 1e-9:
+                issues.append((f"{prefix}:compare_by_subsets", {"method": "compare_by_subsets", "got": got, "common": exp["common"], "total": exp["total"]}))
+        return issues, n + 2, u
+    if act == "Copy":
+        ctx.ta = ctx.ta.copy()
+    elif act == "DeepCopy":
+        ctx.ta = copy.deepcopy(ctx.ta)
+    elif act == "Prune":
+        ctx.ta.prune()
+    elif act == "Bifurcating":
+        ctx.ta = ctx.ta.bifurcating()
+    elif act == "Multifurcating3":
+        ctx.ta = ctx.ta.multifurcating(3)
+    elif act == "CopyRename":
+        ctx.ta = ctx.ta.copy()
+        ctx.ta.reassign_names({args[0]: args[1], args[1]: args[0]})
+    elif act == "RenameInPlace":
+        ctx.ta.reassign_names({args[0]: args[1], args[1]: args[0]})
+    else:
+        raise ValueError(act)
+    return [], 0, 0
+
+
+_H = {}
+MEASURE = json.dumps(["Measure", []], separators=(",", ":"))
+
+
+def _htask(job):
+    fkey, lab, path = job
+    succ, tips = _H["succ"], _H["tips"]
+    act, args = json.loads(lab)
+    allowed = succ[fkey][lab]  # [(tkey, obs)]
+    outs = []
+    hist = ">".join(json.loads(p)[0] for p in path[1:]) or "fresh"
+    for reverse in (False, True):
+        ctx = HCtx(reverse)
+        for pl in path:
+            pa, pargs = json.loads(pl)
+            _happly(ctx, pa, pargs, tips)
+        issues, ncalls, unsupported = [], 0, 0
+        try:
+            issues, ncalls, unsupported = _happly(ctx, act, args, tips, exp=allowed[0][1] if act == "Measure" else None, prefix=f"TreeDistance:after={hist}")
+        except Exception as ex:
+            issues.append((f"TreeDistHist:{act}:raises:{type(ex).__name__}", {"exception": repr(ex)}))
+        got = hkey(ctx.state())
+        to = got if any(t == got for t, _ in allowed) else None
+        if to is None and not issues:
+            issues.append((f"TreeDistHist:{act}:topology", {"observed_state": ctx.state(), "allowed": [json.loads(t) for t, _ in allowed][:6]}))
+        if to is not None and act not in ("Measure", "Start"):
+            # measure again on the SAME objects right after the transformation: the spec's values for
+            # the state just reached (its Measure transition) must show, whatever was measured before
+            exp = succ[to][MEASURE][0][1]
+            try:
+                i2, n2, u2 = _happly(ctx, "Measure", [], tips, exp=exp, prefix=f"TreeDistance:after={hist}>{act}".replace("fresh>", ""))
+                issues += i2
+                ncalls += n2
+                unsupported += u2
+            except Exception as ex:
+                issues.append((f"TreeDistHist:{act}:measure-raises:{type(ex).__name__}", {"exception": repr(ex)}))
+        outs.append((to, issues, ncalls, unsupported))
+    return fkey, lab, outs
+
+
+def replay_histories(records, tips, run, nproc=None):
+    """Breadth-first walk of the TreeDistHist graph on real objects (two child orders)."""
+    import cogent3  # noqa: F401
+
+    succ = defaultdict(dict)
+    ntrans = 0
+    for r in records:
+        f, t = hkey(r["from"]), hkey(r["to"])
+        args = r["args"] if r["act"] != "Start" else [_canon(a) for a in r["args"]]
+        lab = json.dumps([r["act"], args], separators=(",", ":"))
+        lst = succ[f].setdefault(lab, [])
+        if all(t != x for x, _ in lst):
+            lst.append((t, r["obs"]))
+            ntrans += 1
+    _H["succ"], _H["tips"] = succ, tips
+    nproc = nproc or min(16, os.cpu_count() or 1)
+    init = hkey({"live": False, "A": [], "B": [], "meas": False})
+    paths = {init: []}
+    frontier = [init]
+    stats = defaultdict(int)
+    per_act = defaultdict(int)
+    with mp.get_context("fork").Pool(nproc) as pool:
+        while frontier:
+            jobs = [(f, lab, paths[f]) for f in frontier for lab in succ.get(f, {})]
+            nxt = []
+            for fkey, lab, outs in pool.imap_unordered(_htask, jobs, chunksize=32):
+                stats["transitions"] += 1
+                act, args = json.loads(lab)
+                per_act[act] += 1
+                for to, issues, ncalls, unsupported in outs:
+                    stats["cases"] += 1
+                    stats["calls"] += ncalls
+                    stats["unsupported"] += unsupported
+                    seen = set()
+                    for key, detail in issues:
+                        stats["issues"] += 1
+                        if key in seen:
+                            continue
+                        seen.add(key)
+                        run.fail(key, {"history": [json.loads(p) for p in paths[fkey]], "call": [act, args], **detail},
+                                 what=f"{act} after {[json.loads(p)[0] for p in paths[fkey]]}")
+                to = outs[0][0]
+                if to is not None and not outs[0][1] and to not in paths:
+                    paths[to] = paths[fkey] + [lab]
+                    nxt.append(to)
+                if act == "Measure" and len(paths[fkey]) >= 3 and stats["transitions"] % 997 == 0:
+                    run.sample({"history": [json.loads(p) for p in paths[fkey]], "call": "Measure (every distance, subsets, compare_by_subsets)"})
+            frontier = nxt
+    stats["impl_states_reached"] = len(paths)
+    stats["spec_states"] = len(set(succ) | {t for d in succ.values() for l in d.values() for t, _ in l})
+    stats["spec_transitions"] = ntrans
+    stats["per_action"] = dict(per_act)
     return dict(stats)
